@@ -355,6 +355,10 @@ func (c *ctl) build() {
 	switch cfg.Kind {
 	case "Emit", "Unfold", "Seq":
 		nin = 0
+	case "Pipeline":
+		if len(cfg.Inputs) == 0 {
+			nin = 0 // the pipeline is fed by Unfold (the README's quick example)
+		}
 	case "New":
 		nin = 1
 	}
@@ -375,6 +379,9 @@ func (c *ctl) build() {
 	switch {
 	case cfg.Kind == "Pipeline":
 		cur := in
+		if nin == 0 {
+			cur = pipe.StdErr(pipe.Unfold(ctx, cfg.Cap, cfg.Seed, pf(cfg.Mode, fs.fnStep)))
+		}
 		for _, st := range cfg.Stages {
 			cur = c.pipeStage(st, cur)
 		}
